@@ -540,8 +540,11 @@ def callMethodS (ev : EvS) (Ca : Nat) (bad : Err) (r : ObjS) (f : Fn) (args : Li
         let n := strs.length
         -- the hidden `Context()` parameter: the call context itself is written and returned
         let F ← childCtx Ca
-        match (if xs.length < n + 1 then e else none) with
-        | some er => fail er
+        match (if n = 0 || xs.length < n + 1 then e else none) with
+        | some er =>
+          -- without names the elements are published one by one while `chain(lst, sequence)` is consumed: what the
+          -- source yielded before it raised has been written into the (fresh, then abandoned) call context
+          if n = 0 then do publishNamed F (bindPos 1 xs); fail er else fail er
         | none =>
         if n = 0 then do publishNamed F (bindPos 1 xs); pure (.ctx F)
         else if (xs.take (n + 1)).length != n then fail .value
